@@ -40,6 +40,7 @@ class VerusResult:
     world: str = ""
     raw_err: str = ""
     cmd: str = ""
+    err_line: int | None = None    # line of the first compile error in the generated world (to tell whose text does not compile)
 
 
 def run_verus(world_path: str, unit: str, fn_names: list[str], cmap: dict, rlimit: int | None = None,
@@ -75,7 +76,14 @@ def run_verus(world_path: str, unit: str, fn_names: list[str], cmap: dict, rlimi
             except Exception:
                 pass
     errors = [d for d in diags if d.get("level") == "error" and not d.get("message", "").startswith("aborting due to")]
+    def first_line(ds):
+        for d in ds:
+            for sp in d.get("spans", []):
+                if sp.get("is_primary"):
+                    return sp.get("line_start")
+        return None
     if out is None or "verification-results" not in out:
+        res.err_line = first_line(errors)
         res.reason = "verus produced no verification results (compile error / unsupported construct): " + \
             "; ".join(d.get("message", "")[:200] for d in errors[:3])
         return res
@@ -92,6 +100,7 @@ def run_verus(world_path: str, unit: str, fn_names: list[str], cmap: dict, rlimi
     except Exception:
         pass
     if vr.get("encountered-vir-error"):
+        res.err_line = first_line(errors)
         res.reason = "verus rejected the world (unsupported construct): " + "; ".join(d.get("message", "")[:200] for d in errors[:3])
         return res
     resource = False
@@ -100,6 +109,7 @@ def run_verus(world_path: str, unit: str, fn_names: list[str], cmap: dict, rlimi
         low = msg.lower()
         if d.get("code"):
             res.reason = "rustc error in generated world: " + msg[:300]
+            res.err_line = first_line([d])
             return res
         if any(r in low for r in RESOURCE_MSG):
             resource = True
